@@ -77,7 +77,7 @@ func runC02(c *Ctx) {
 		checkD2(sub, pr)
 		checkP2(sub, pr)
 		for _, o := range sub.R.Obls {
-			if strings.HasSuffix(o.Key, ".removePriority") || strings.HasSuffix(o.Key, "#append-unique") || strings.HasSuffix(o.Key, "#registered-appended") || strings.HasSuffix(o.Key, "#unregister") || strings.HasSuffix(o.Key, "#list") {
+			if strings.HasSuffix(o.Key, ".removePriority") || strings.HasSuffix(o.Key, "#append-unique") || strings.HasSuffix(o.Key, "#append-base") || strings.HasSuffix(o.Key, "#registered-appended") || strings.HasSuffix(o.Key, "#unregister") || strings.HasSuffix(o.Key, "#list") {
 				r.Check(o.OK, "X11", o.Key, o.Site, o.Detail, o.Detail)
 			}
 		}
@@ -93,6 +93,9 @@ func runC02(c *Ctx) {
 		c07drainedMarks(sub, sr)
 		c07forall(sub, sr, sr.allDrained, "Drained")
 		for _, o := range sub.R.Obls {
+			if strings.HasSuffix(o.Key, "#drained-exit") {
+				continue // (a discipline that never ends loses nothing: C07's business only)
+			}
 			r.Check(o.OK, "X8", o.Key, o.Site, o.Detail, o.Detail)
 		}
 	}
